@@ -30,7 +30,7 @@ SPEC = {
 }
 PLAN = {
     "quick": {"small_n": 4, "random": {"M2": 1400, "M3": 1000, "M4": 300, "M5": 300, "M7s": 200, "M10hiso": 600, "M12rings": 500}, "variants": 2, "k": 2, "corpus": True},
-    "thorough": {"small_n": 5, "small_sample": 0.12, "random": {"M2": 12000, "M3": 9000, "M4": 3000, "M5": 3000, "M7s": 1500, "M10hiso": 6000, "M12rings": 5000}, "variants": 4, "k": 4,
+    "thorough": {"small_n": 5, "small_sample": 0.12, "extra": [(6, [("C", 0, 0)])], "random": {"M2": 12000, "M3": 9000, "M4": 3000, "M5": 3000, "M7s": 1500, "M10hiso": 6000, "M12rings": 5000}, "variants": 4, "k": 4,
                  "corpus": True, "cfi": 6},
 }
 
@@ -78,7 +78,8 @@ def _run_case(ctx, case):
     molprops.coverage(ctx, case, g0)
     if case.get("cls") == "M1" and getattr(ctx, "events", None) is not None:
         c_, e_ = bridge.colors_edges(g0)
-        ctx.events.write(json.dumps({"k": h(iso.canon_small(c_, e_)), "g": h(results[0][1]), "name": case.get("name")}) + "\n")
+        canon_repr = (results[0][1][0], sorted(sorted(e) for e in results[0][1][1]))  # order-independent spelling of the labelled graph
+        ctx.events.write(json.dumps({"k": h(iso.canon_small(c_, e_)), "g": h(canon_repr), "name": case.get("name")}) + "\n")
     ctx.sample({"class": case.get("cls"), "name": case.get("name"), "atoms": g0.number_of_nodes(),
                 "canonical_nodes": [[v, list(map(str, t))] for v, t in results[0][1][0]][:6]})
 
